@@ -62,6 +62,7 @@ class SchemaValidator:
         # reset everything that was collected while validating a previous schema
         self._psuedo_checkpoints = []
         self._generated_checkpoints = []
+        self._thread_groups_being_typed = []
         self._pipelines = {}
         self._aggregated_fields = {}
         self._type_details_at_path = {}
@@ -1322,6 +1323,15 @@ class SchemaValidator:
             if var_name in thread_context.variables:
                 return thread_context.variables[var_name]
 
+            if not check_nested_scopes:
+                # the enclosing thread group may be declared later in the schema,
+                # in which case its variable has not been recorded yet
+                pending_variable = self._type_pending_thread_variable(
+                    thread_group_ref, var_name
+                )
+                if pending_variable is not None:
+                    return pending_variable
+
         if check_nested_scopes:
 
             def check_nested_scopes_recursive(thread_group_ref):
@@ -1352,6 +1362,29 @@ class SchemaValidator:
             )
 
         return None
+
+    def _type_pending_thread_variable(self, thread_group_ref, var_name):
+        thread_group = self._resolve_global_ref(thread_group_ref)
+        if (
+            not isinstance(thread_group, dict)
+            or "spawn" not in thread_group
+            or not isinstance(thread_group["spawn"], dict)
+            or "as" not in thread_group["spawn"]
+            or thread_group["spawn"]["as"] != var_name
+            or any(thread_group is g for g in self._thread_groups_being_typed)
+        ):
+            return None
+
+        # run the thread group's own validation to type its variable, without recording anything:
+        # the thread group reports its errors and records its variable when its own turn comes
+        self._thread_groups_being_typed.append(thread_group)
+        try:
+            self.validate_thread_group("", thread_group)
+        except Exception:
+            pass
+        self._thread_groups_being_typed.pop()
+
+        return self._thread_groups[thread_group_ref].variables.pop(var_name, None)
 
     def _record_settable_fields(self, action):
         object_type_ref = self._object_type_ref_from_action(action)
@@ -3409,6 +3442,50 @@ class SchemaValidator:
                             nested_checkpoint_refs.append(
                                 self._normalize_ref(dependency["checkpoint"])
                             )
+
+        # resolve the scope ("<outermost thread group id>. ... .<thread group id>") of every thread group
+        # up front, so that scope checks do not depend on the order in which thread groups are declared
+        def resolve_thread_scope(thread_group, visiting=()):
+            if "id" not in thread_group:
+                return None
+
+            thread_group_ref = self._normalize_ref(
+                utils.as_ref(thread_group["id"], "thread_group", value_is_id=True)
+            )
+            if thread_group_ref not in self._thread_groups or any(
+                thread_group is g for g in visiting
+            ):
+                return None
+
+            if self._thread_groups[thread_group_ref].scope is not None:
+                return self._thread_groups[thread_group_ref].scope
+
+            if "context" not in thread_group:
+                scope = str(thread_group["id"])
+            elif utils.is_template_entity_reference(
+                thread_group, "context", "thread_group"
+            ):
+                parent_thread_group = self._resolve_global_ref(thread_group["context"])
+                if parent_thread_group is None:
+                    return None
+
+                parent_scope = resolve_thread_scope(
+                    parent_thread_group, visiting + (thread_group,)
+                )
+                if parent_scope is None:
+                    return None
+
+                scope = f"{parent_scope}.{thread_group['id']}"
+            else:
+                return None
+
+            self._thread_groups[thread_group_ref].scope = scope
+            return scope
+
+        if isinstance(self.schema.get("thread_groups"), list):
+            for thread_group in self.schema["thread_groups"]:
+                if isinstance(thread_group, dict):
+                    resolve_thread_scope(thread_group)
 
         self._unreferenced_thread_groups = []
         for thread_group_ref, thread_group in self._thread_groups.items():
